@@ -93,6 +93,7 @@ def to_model(log, before, after):
     idxs = [0]
     known, parent, order = {0}, {0: 0}, []
     prev_snap = before
+    stop_at = {}  # scenario -> (index of the log entry at which it was found stopped, final?)
     holders = {}  # spec oracle state: (o,p) -> dict(base=, ids=[...], dirty=bool, all=[...])
     spec_fail = None
     for l in log:
@@ -105,10 +106,16 @@ def to_model(log, before, after):
             if kind == "Final":
                 mops.append(["StopAll"])
             else:
-                for k in stopped:
-                    if k == 0 or parent.get(k) not in stopped:
-                        mops.append(["Stop", k])
+                def path(k):  # the scenario tree is stepped depth-first, sub-scenarios oldest first
+                    p = [k]
+                    while p[0] != 0 and p[0] in parent and len(p) < 50:
+                        p.insert(0, parent[p[0]])
+                    return p
+                for k in sorted((k for k in stopped if k == 0 or parent.get(k) not in stopped), key=path):
+                    mops.append(["Stop", k])
             known -= set(stopped)
+            for k in stopped:
+                stop_at[k] = (len(idxs), kind == "Final")
             for key, h in holders.items():
                 if h["ids"] and all(i in stopped for i in h["ids"]):
                     freed.append(key)
@@ -156,8 +163,15 @@ def to_model(log, before, after):
                             return False
                         b = parent[b]
                 par = any(not anc(a, b) and not anc(b, a) for a in h["all"] for b in h["all"])
+
+                def lifo(a, b):  # a overrode first, b on top of it: b's revert must come before a's
+                    (ta, fa), (tb, fb) = stop_at.get(a, (10 ** 9, True)), stop_at.get(b, (10 ** 9, True))
+                    if ta != tb:
+                        return tb < ta
+                    return (b > a) if fa else (anc(a, b) and a != b)
+                nonlifo = any(not lifo(a, b) for i, a in enumerate(h["all"]) for b in h["all"][i + 1:])
                 spec_fail = dict(obj=key[0], prop=key[1], expected=h["base"], got=snap[key[0]][key[1]], overriding_scenarios=h["all"],
-                                 parallel_siblings=par)
+                                 parallel_siblings=par, non_lifo_overlap=nonlifo)
             if not h["ids"]:
                 h["dirty"] = False
         prev_snap = snap
@@ -181,7 +195,7 @@ def main():
     if not c.proofs():
         c.finish()
     quick = c.tier == "quick"
-    nprog = int(os.environ.get("VERIF_C14_N", 96 if quick else 3000))
+    nprog = int(os.environ.get("VERIF_C14_N", 96 if quick else 1500))
     rng = c.rng
     progs = []
     cdir = os.path.join(common.VERIF, "corpus", PID)
@@ -261,7 +275,8 @@ def main():
             c.hist("probe:" + pname)
             if r["probe"] != ref["probe"]:
                 c.violation("later-use", "compile/generate/simulate after earlier runs differs from a fresh process",
-                            dict(after=r["name"], got=shorten(r["probe"]), fresh=shorten(ref["probe"]), job=last_job))
+                            dict(after=r["name"], got=shorten(r["probe"]), fresh=shorten(ref["probe"]), job=last_job,
+                                 got_objects=len(r["probe"].get("scene", [])), fresh_objects=len(ref["probe"].get("scene", []))))
             if r["veneer_after"] != state0:
                 c.violation("veneer", "interpreter global state differs from a fresh process after a probe",
                             dict(after=r["name"], diff=state_diff(r["veneer_after"], state0), diff_json=json.dumps(state_diff(r["veneer_after"], state0), sort_keys=True), job=last_job))
@@ -336,7 +351,7 @@ def main():
             defs.append(coq_bool(nm + "_r3", "fixed", ints(r["before"]), r["gs"], mops3, exp3, idxs3))
             names.append(nm + "_r3")
             # the same third run under the model variant whose top-level table survives the earlier runs
-            allops = mops + mops + mops3
+            allops = remap(mops, 100) + remap(mops, 200) + mops3
             off = 2 * len(mops)
             alt = coq_bool(nm + "_r3s", "stale_v", ints(r["before"]), r["gs"], allops, exp3, [i + off for i in idxs3])
             case_info[nm + "_r3"] = dict(job=job, history=mops3, impl_snapshots=exp3, outcome=r3["outcome"], run=3, alt=alt, before=r["before"], idxs=idxs3,
@@ -347,7 +362,7 @@ def main():
 
     def run_shard(k_sh):
         k, sh = k_sh
-        return sh, eval_bools(f"C14_cases_{k}", [defs[i] for i in sh], [names[i] for i in sh])
+        return sh, eval_bools(f"C14_cases_s{c.seed}_{k}", [defs[i] for i in sh], [names[i] for i in sh])
 
     failing = []
     with cf.ThreadPoolExecutor(WORKERS) as ex:
@@ -361,7 +376,7 @@ def main():
     alts = [n for n in failing if case_info[n].get("alt")]
     explained = {}
     if alts:
-        vals, out = eval_bools("C14_alt", [case_info[n]["alt"] for n in alts], [n + "s" for n in alts])
+        vals, out = eval_bools(f"C14_alt_s{c.seed}", [case_info[n]["alt"] for n in alts], [n + "s" for n in alts])
         if vals:
             explained = {n: vals[n + "s"] for n in alts}
     for n in failing:
@@ -379,6 +394,18 @@ def main():
         "CPython semantics of try/finally and generators",
     ]
     c.finish()
+
+
+def remap(ops, delta):
+    """objects created during an earlier run are different objects: give them other identities"""
+    out = []
+    for o in ops:
+        o = list(o)
+        pos = {"Write": 1, "Override": 2, "Create": 1}.get(o[0])
+        if pos is not None and o[pos] >= 2:
+            o[pos] += delta
+        out.append(o)
+    return out
 
 
 def shorten(x):
